@@ -45,6 +45,17 @@ def procSotw (gen : C03.Gen) (v : C03.Srv) (r : Req) : Option POut :=
     let p := C03.pushSotwOne gen { v with st := s' } r.ty sub
     some { srv := p.1, sent := p.2.1.toList, calls := (askedSotw s' r.ty sub).toList }
 
+/-- `processRequest` for a proxyless gRPC client (`proxy.IsProxylessGrpc()`): `pushXds` does NOT narrow the
+    watched resource to the newly subscribed names - such a client expects the whole subscription in every
+    response (it is a state-of-the-world client in the strict sense). -/
+def procSotwGrpc (gen : C03.Gen) (v : C03.Srv) (r : Req) : Option POut :=
+  match shouldRespond v.st r with
+  | .crash => none
+  | .out false _ s' => some { srv := { v with st := s' }, sent := [], calls := [] }
+  | .out true _ s' =>
+    let p := C03.pushSotwOne gen { v with st := s' } r.ty []
+    some { srv := p.1, sent := p.2.1.toList, calls := (askedSotw s' r.ty []).toList }
+
 /-- The loop of `pushConnection`; stops at the first failed send. -/
 def pushAllSotwC (gen : C03.Gen) (v : C03.Srv) : List Ty → POut
   | [] => { srv := v, sent := [], calls := [] }
